@@ -367,7 +367,7 @@ impl ThreadPool {
 
         let num_busy = Arc::new(RwLock::new(0_usize));
 
-        for _ in 0..initial_worker {
+        for _ in 0..initial_worker.min(max_workers.max(1)) {
             workers.push(Worker::new(Arc::clone(&receiver), Arc::clone(&num_busy)));
         }
 
@@ -385,11 +385,14 @@ impl ThreadPool {
         F: FnOnce() + Send + 'static,
     {
         let job = Box::new(f);
+        {
+            let mut num_busy = self.num_busy.write().unwrap();
+            *num_busy += 1;
+        }
         self.sender.send(Message::NewJob(job)).unwrap();
         #[cfg(varlink_rust_verif)]
         verif::probe("enqueued", self.num_busy(), self.workers.len());
-        if ((self.num_busy() + 1) >= self.workers.len()) && (self.workers.len() <= self.max_workers)
-        {
+        if (self.num_busy() >= self.workers.len()) && (self.workers.len() < self.max_workers) {
             self.workers.push(Worker::new(
                 Arc::clone(&self.receiver),
                 Arc::clone(&self.num_busy),
@@ -432,10 +435,6 @@ impl Worker {
                 Message::NewJob(job) => {
                     #[cfg(varlink_rust_verif)]
                     verif::probe("dequeued", *num_busy.read().unwrap(), 0);
-                    {
-                        let mut num_busy = num_busy.write().unwrap();
-                        *num_busy += 1;
-                    }
                     #[cfg(varlink_rust_verif)]
                     verif::probe("start", *num_busy.read().unwrap(), 0);
                     job.call_box();
